@@ -382,8 +382,8 @@ Qed.
 Lemma lex_str_esc acc c rest :
   32 <= c -> lex (LStr acc) (92 :: c :: rest) = lex (LStr (acc ++ [92; c])) rest.
 Proof.
-  intros. cbn [lex step]. change (92 =? 34) with false. change (92 =? 92) with true. cbv iota.
-  nfalse. rewrite !option_map_app_nil. reflexivity.
+  intros. cbn [lex]. unfold step at 1. change (92 =? 34) with false. change (92 =? 92) with true.
+  cbv iota. rewrite option_map_app_nil. unfold step. nfalse. apply option_map_app_nil.
 Qed.
 
 Lemma lex_chunk b acc rest :
@@ -411,8 +411,8 @@ Qed.
 Lemma lex_jstring s rest :
   lex LOut (34 :: escape s ++ 34 :: rest) = option_map (cons (TStr (escape s))) (lex LOut rest).
 Proof.
-  cbn [lex step step_out]. cbn [N.eqb Pos.eqb orb]. cbn [option_map app].
-  rewrite lex_string. cbn [app]. destruct (lex LOut rest); reflexivity.
+  cbn [lex]. change (step LOut 34) with (Some (@nil tok, LStr [])). cbv iota.
+  rewrite option_map_app_nil, lex_string. reflexivity.
 Qed.
 
 (* ---- decimal numbers ---- *)
@@ -645,6 +645,29 @@ Proof.
     rewrite lex_rb; cbn; repeat (rewrite <- app_assoc; cbn [app]); reflexivity.
 Qed.
 
+Definition pm_cons (kv : bytes * jval) (o : option (list (bytes * jval) * list tok)) :=
+  match o with Some (ms, r') => Some (kv :: ms, r') | None => None end.
+
+Lemma pm_str f k s rest :
+  parse_members (S f) (TStr (escape k) :: TColon :: TStr (escape s) :: TComma :: rest) =
+  pm_cons (k, JStr s) (parse_members f rest).
+Proof. cbn [parse_members parse_value]. rewrite !unescape_escape. reflexivity. Qed.
+
+Lemma pm_num f k n rest :
+  parse_members (S f) (TStr (escape k) :: TColon :: TNum n :: TComma :: rest) =
+  pm_cons (k, JNum n) (parse_members f rest).
+Proof. cbn [parse_members parse_value]. rewrite !unescape_escape. reflexivity. Qed.
+
+Lemma pm_null f k rest :
+  parse_members (S f) (TStr (escape k) :: TColon :: TNull :: TComma :: rest) =
+  pm_cons (k, JNull) (parse_members f rest).
+Proof. cbn [parse_members parse_value]. rewrite !unescape_escape. reflexivity. Qed.
+
+Lemma pm_mdc_last f k m r :
+  parse_members (S f) (TStr (escape k) :: TColon :: TLB :: mdc_toks m ++ TRB :: TRB :: r) =
+  Some ([(k, JMap m)], r).
+Proof. cbn [parse_members parse_value]. rewrite unescape_escape, parse_map_mdc. reflexivity. Qed.
+
 Lemma parse_record_toks r :
   parse_members (length (record_toks r)) (record_toks r) = Some (fields_of r, [TNL]).
 Proof.
@@ -652,8 +675,9 @@ Proof.
   destruct r as [time lvl msg mo fi li tgt th tid mdc]. cbn [r_time r_level r_message r_module r_file r_line r_target r_thread r_thread_id r_mdc].
   destruct mo as [mo|], fi as [fi|], li as [li|], th as [th|];
     cbn [opt_toks opt_field app length];
-    cbn [parse_members parse_value]; rewrite !unescape_escape; cbn [option_map];
-    rewrite parse_map_mdc; reflexivity.
+    repeat first [rewrite pm_str | rewrite pm_num | rewrite pm_null];
+    change [TRB; TRB; TNL] with (TRB :: TRB :: [TNL]);
+    rewrite pm_mdc_last; reflexivity.
 Qed.
 
 Lemma record_toks_not_rb r : match record_toks r with TRB :: _ => False | _ => True end.
@@ -730,20 +754,26 @@ Proof.
   apply in_map_iff in Hx. destruct Hx as [[k v] [<- _]]. apply ge32_member, ge32_jstring.
 Qed.
 
+Lemma ge32_opt {A} k (f : A -> bytes) o : (forall x, ge32 (f x)) -> Forall ge32 (opt_member k f o).
+Proof.
+  intros H. destruct o; cbn [opt_member]; [|constructor].
+  apply Forall_cons; [apply ge32_member, H|constructor].
+Qed.
+
 Lemma ge32_message_object r : ge32 (message_object r).
 Proof.
   unfold message_object. apply ge32_object.
-  repeat (apply Forall_app; split).
-  - repeat constructor; apply ge32_member, ge32_jstring.
-  - destruct (r_module r); repeat constructor. apply ge32_member, ge32_jstring.
-  - destruct (r_file r); repeat constructor. apply ge32_member, ge32_jstring.
-  - destruct (r_line r); repeat constructor. apply ge32_member, ge32_dec.
-  - repeat constructor.
-    + apply ge32_member, ge32_jstring.
-    + apply ge32_member. destruct (r_thread r); [apply ge32_jstring|].
-      unfold j_null. repeat constructor; lia.
-    + apply ge32_member, ge32_dec.
-    + apply ge32_member, ge32_mdc.
+  apply Forall_app; split; [|apply Forall_app; split; [|apply Forall_app; split; [|apply Forall_app; split]]].
+  - repeat (apply Forall_cons; [apply ge32_member, ge32_jstring|]). constructor.
+  - apply ge32_opt, ge32_jstring.
+  - apply ge32_opt, ge32_jstring.
+  - apply ge32_opt, ge32_dec.
+  - apply Forall_cons; [apply ge32_member, ge32_jstring|].
+    apply Forall_cons.
+    { apply ge32_member. destruct (r_thread r); [apply ge32_jstring|].
+      unfold j_null, ge32. repeat (apply Forall_cons; [lia|]). constructor. }
+    apply Forall_cons; [apply ge32_member, ge32_dec|].
+    apply Forall_cons; [apply ge32_member, ge32_mdc|constructor].
 Qed.
 
 Theorem one_line r :
